@@ -1439,7 +1439,8 @@ func opMapFilter(h *Hist) {
 		i := []int{0, 1, 2, 4, 5}[variant-9]
 		tk = typedKinds[i]
 		name, isFilter = "Filter"+typedNames[i], true
-	case variant == 14:
+	case variant == 14 && len(n.Elems) <= 3000:
+		// (one simulated goroutine per element: tens of thousands make a single history take minutes; C15's own engine covers those sizes)
 		name = "MapAsync"
 	}
 	h.begin(name, "C14", "C09")
@@ -1689,6 +1690,9 @@ func opForEachVariants(h *Hist) {
 		return
 	}
 	which := h.d.Draw("foreach-variant", 10)
+	if which >= 8 && len(n.Elems)+len(n.Fields) > 3000 {
+		which = 0 // (see MapAsync: one simulated goroutine per element)
+	}
 	names := []string{"ForEach", "ForEachValue", "ForEachObject", "ForEachList", "ForEachString", "ForEachBool", "ForEachInt", "ForEachFloat", "ForEachAsync", "ForEachAsync"}
 	name := names[which]
 	h.begin(name, "C14")
@@ -2163,7 +2167,7 @@ func opObjMap(h *Hist) {
 	case variant >= 2 && variant <= 7:
 		tk = typedKinds[variant-2]
 		name = "Map" + typedNames[variant-2]
-	case variant == 8:
+	case variant == 8 && len(n.Fields) <= 3000:
 		name = "MapAsync"
 	}
 	h.begin(name, "C14", "C09")
